@@ -41,3 +41,52 @@ def FinSt.run (s : FinSt) (steps : List FinStep) : FinSt := steps.foldl FinSt.st
 def refValue (cells : Cells) (target : Nat) : Nat := cells target
 
 end Jubako
+
+namespace Jubako
+
+/-! ### Deferred values in the writer's input (file level)
+
+An entry as handed to `add_entry`: each value is either plain or a `Word` reading the cell of the
+entry added as number `target` (insertion order).  `finalize` fixes the order and the cells; what
+is sized and serialised afterwards is the entry with every reference replaced by the value of its
+target's cell at that moment. -/
+
+inductive ValIn where
+  | val (v : Val)
+  | ref (target : Nat)
+  deriving Repr, DecidableEq
+
+structure EntryRefIn where
+  variant : Option Nat
+  values : List ValIn
+  deriving Repr, DecidableEq
+
+def ValIn.resolve (cells : Cells) : ValIn → Val
+  | .val v => v
+  | .ref t => .u (refValue cells t)
+
+def EntryRefIn.resolve (cells : Cells) (e : EntryRefIn) : EntryIn :=
+  ⟨e.variant, e.values.map (ValIn.resolve cells)⟩
+
+/-- the writer's input with deferred values: entries in insertion order -/
+structure DirRefIn where
+  storeKinds : List Bool
+  schema : SchemaDef
+  entries : List EntryRefIn
+  indexes : List IndexDef
+  deriving Repr
+
+/-- `EntryStore::finalize` followed by serialisation: run the step sequence (initial index
+    assignment, then for every sort pass the new order and a re-assignment), then read every entry
+    — in the final order — through the final cells -/
+def DirRefIn.finalize (d : DirRefIn) (passes : List (List Nat)) : DirIn :=
+  let s := (FinSt.mk (List.range d.entries.length) (fun _ => 0)).run (finalizeSteps passes)
+  { storeKinds := d.storeKinds, schema := d.schema,
+    entries := s.order.filterMap (fun id => (d.entries[id]?).map (EntryRefIn.resolve s.cells)),
+    indexes := d.indexes }
+
+/-- the handle (`Bound`) returned when the entry was added, read after `finalize` -/
+def DirRefIn.boundOf (d : DirRefIn) (passes : List (List Nat)) (e : Nat) : Nat :=
+  ((FinSt.mk (List.range d.entries.length) (fun _ => 0)).run (finalizeSteps passes)).cells e
+
+end Jubako
